@@ -15,15 +15,16 @@ using namespace bspline::operators;
 #endif
 
 template <size_t d, size_t o>
-void prim_case(size_t n, bool fixed_grid = false) {
+void prim_case(size_t n, bool fixed_grid = false, std::vector<std::pair<size_t, size_t>> ws = {}) {
   auto &E = Engine::get();
   // fixed_grid: rational grid points (the high-order cases, where a symbolic midpoint raised to the 40th power is out of reach)
-  std::vector<Real> g = fixed_grid ? std::vector<Real>{Real::frac(-3, 2), Real::frac(5, 7), Real(3)} : gridvars(n);
+  std::vector<Real> g = fixed_grid ? std::vector<Real>{Real::frac(-3, 2), Real::frac(5, 7), Real(3)} : gridpoints(n);
   if (fixed_grid) g.resize(n);
+  if (ws.empty()) ws = windows(n);
   Grid<Real> grid(g);
   Real x = Real::var("x");
   bool ctl = false;
-  for (auto w : windows(n)) {
+  for (auto w : ws) {
     auto s = mkspline<o>(grid, w.first, w.second, "c");
     auto ds = Dx<d>{} * s;
     auto xs = X<d>{} * s;
@@ -102,9 +103,43 @@ template <size_t... I>
 void add_high_all(std::vector<Case> &cases, std::index_sequence<I...>) {
   (add_high<HV[I / HV.size()], HV[I % HV.size()]>(cases), ...);
 }
+// dense (n, order) pairs for n = 0..4 and orders 4..12 on the same fixed interval
+template <size_t d, size_t o>
+void add_dense(std::vector<Case> &cases) {
+  add_high<d, o>(cases);
+  if constexpr (o > 4)
+    add_dense<d, o - 1>(cases);
+  else if constexpr (d > 0)
+    add_dense<d - 1, 12>(cases);
+}
+#ifdef LARGE
+// every window of a LARGE-point fixed rational grid (coefficients and x symbolic)
+template <size_t d, size_t o>
+void add_large(std::vector<Case> &cases) {
+  auto all = windows(LARGE);
+  for (size_t lo = 0; lo < all.size(); lo += 8) {
+    std::vector<std::pair<size_t, size_t>> part(all.begin() + lo, all.begin() + std::min(all.size(), lo + 8));
+    cases.push_back({"prim-large/d" + std::to_string(d) + "/o" + std::to_string(o) + "/n" + std::to_string(LARGE) + "/part" + std::to_string(lo / 8), [=] { prim_case<d, o>(LARGE, false, part); }});
+  }
+}
+void hx_cases(std::vector<Case> &cases) {
+  add_large<1, 1>(cases);
+  add_large<2, 3>(cases);
+  add_large<3, 2>(cases);
+  add_large<1, 0>(cases);
+#ifdef LARGE_ALL
+  add_large<0, 1>(cases);
+  add_large<2, 2>(cases);
+  add_large<4, 4>(cases);
+  add_large<1, 6>(cases);
+#endif
+}
+#else
 void hx_cases(std::vector<Case> &cases) {
   add<MAXD, MAXO>(cases);
 #ifdef HIGH_ORDERS
   add_high_all(cases, std::make_index_sequence<HV.size() * HV.size()>{});
+  add_dense<4, 12>(cases);
 #endif
 }
+#endif
